@@ -94,6 +94,14 @@ class SimScorer:
         elif m == "coarse_neg":
             # the best score is exactly 0.0 (or -0.0), everything else below it
             v = self.rng.choice([0.0, -0.0, -1.0, -2.5, 0.0])
+        elif m == "tiny":
+            # finite scores on a very small absolute scale
+            v = self.rng.random() * 1e-12
+        elif m == "huge":
+            v = (self.rng.random() - 0.5) * 1e300
+        elif m == "close":
+            # scores that differ in their last bits only
+            v = 1.0 + self.rng.randrange(2000) * 2.220446049250313e-16
         elif m == "poison":
             # a caller's scorer that sometimes answers NaN / +-inf: whatever the search does
             # with such candidates, a non-finite score must not be streamed
@@ -536,7 +544,8 @@ def _schedulers(rng, n_random):
     s = [{"mode": "constant"}, {"mode": "shipped"}, {"mode": "neg_shipped"},
          {"mode": "counter_up"}, {"mode": "counter_down"}]
     for _ in range(n_random):
-        s.append({"mode": rng.choice(["uniform", "uniform", "coarse", "coarse_neg"]),
+        s.append({"mode": rng.choice(["uniform", "uniform", "coarse", "coarse_neg", "tiny",
+                                      "close", "huge"]),
                   "seed": rng.randrange(1 << 30)})
 
     return s
@@ -615,6 +624,20 @@ def _texts(rng, n, prop="C15"):
             if rng.random() < 0.3:
                 t = "%s %s %s %s %s" % (j, rng.choice(workload.DOWS), rng.choice(v), j,
                                         rng.choice(v))
+        elif r < 0.845:
+            # (part of day) + dated clock time + "for <duration>": an interval that no joiner,
+            # "before" or "after" word announces, then consumed by the interval rules
+            pod = rng.choice(["abends", "evening", "nachmittags", "afternoon", "tonight", "night",
+                              "nachts", "morning", "last"])
+            day = rng.choice(["5.5.2020", "tomorrow", "friday", "heute", "12.12.", "mon", "5.5."])
+            ck = rng.choice(["8 uhr", "8", "8:30", "9am", "20:00", "3", "7 uhr", "11:15"])
+            du = rng.choice(["für 2 stunden", "for 3 hours", "for 90 minutes", "für 30 minuten",
+                             "for 2 hours", "für 1 stunde", "for 2 days", "for one night",
+                             "für 1 tag"])
+            t = rng.choice(["%s %s %s %s" % (pod, day, ck, du), "%s %s %s %s" % (pod, day, ck, du),
+                            "%s %s %s %s" % (day, pod, ck, du), "%s %s %s %s" % (day, ck, pod, du),
+                            "%s %s %s" % (pod, ck, du), "%s %s %s" % (day, ck, du),
+                            "%s %s %s %s" % (pod, ck, day, du)])
         elif r < 0.86:
             # two different expressions of the same kind side by side (one pattern matching
             # twice in one sequence; a production may decline the first and accept the second)
@@ -632,6 +655,9 @@ def _texts(rng, n, prop="C15"):
             if rng.random() < 0.5:
                 t = rng.choice(workload.DATES + workload.DOWS + ["at", "from"]) + " " + t
         t = " ".join(t.lower().split()) if rng.random() < 0.9 else " ".join(t.split())
+        if rng.random() < (0.04 if prop == "C15" else 0.08):
+            # letters that a case-insensitive Unicode match folds together / decomposed umlauts
+            t = workload.confuse(rng, t)
         if len(t) > (44 if prop == "C15" else 64):
             continue
         toks = t.split(" ")
